@@ -226,3 +226,74 @@ Proof.
   apply (U2 (ascii_of_N 195) (ascii_of_N 169)); [reflexivity|].
   apply U1; [reflexivity|]. apply U1; [reflexivity|]. apply U0.
 Qed.
+
+(* ------------------------------------------------------------------------------------------------------------ *)
+(* RenderStack: the "observed data" is no longer an assumption.
+   [crender] (Model/RenderStack.v) renders a term whose Value / ID / PkgExpose leaves and plain Sprintf arguments are
+   STRUCTURED — values of C10's universe rendered by C10's [value_lit] / [print_lit], types and references rendered by
+   C11's [ident_frag] with C15's [parse_type_ref] — through C03's tracker ([pick_c03 pre std]: any refused-name list,
+   any reserved table), threading the tracker state through the scanner loops of this file in the order the code
+   renders the arguments.  [cerase tbl s] is the term of THIS file's vocabulary in which every leaf is replaced by what
+   the component model renders it to in the tracker state [tbl].
+   Theorem: the composed rendering writes what [render all_fixed] (hence, on the domain, the specification) gives for
+   [cerase e' s] with e' the FINAL tracker state — or any later state: a leaf renders the same text in every state
+   after the one it was first rendered in (C03: a name, once handed out, never changes). *)
+Require Import Gengo.Model.RenderStack Gengo.Proofs.RenderStackTracker Gengo.Proofs.RenderStackSnippet
+               Gengo.Proofs.RenderStackLeaves Gengo.Proofs.RenderStack.
+Require Gengo.Model.ValueLit Gengo.Model.ValueLitInst.
+
+(* the state-threading template scanner is tokenise-then-substitute with state (any state type, any arguments) *)
+Theorem C09_stateful_template :
+  forall (St : Type) (args : list (bytes * aview_st St)) (f : bytes) (e : St),
+    tpl_st St args f e = subst_st St args (tokenize (sc_view (trim_nl f))) e.
+Proof. exact tpl_st_spec. Qed.
+Print Assumptions C09_stateful_template.
+
+Theorem C09_stateful_sprintf :
+  forall (St : Type) (f : bytes) (args : list (sview_st St)) (e : St),
+    sp_st St f args e = ssubst_st St (stokenize (sc_view f)) args e.
+Proof. exact sp_st_spec. Qed.
+Print Assumptions C09_stateful_sprintf.
+
+Theorem C09_composed_render :
+  forall (F : Type) (fzero : F -> bool) (ffmt gfmt : VL.fkind -> F -> bytes) (fbig : F -> bool)
+         (quote : bytes -> bytes) (cbq : bytes -> bool) (pre : list bytes) (std : option Tk.tracker)
+         (self : bytes) (fx6 : bool) (s : @csnip F) (e : TL.renv) (out : bytes) (e' : TL.renv),
+    crender fzero ffmt gfmt fbig quote cbq (pick_c03 pre std) self fx6 s e = Ok (out, e') ->
+    ext e e' /\
+    forall e2, ext e' e2 ->
+      crender fzero ffmt gfmt fbig quote cbq (pick_c03 pre std) self fx6 s e2 = Ok (out, e2) /\
+      render all_fixed (cerase fzero ffmt gfmt fbig quote cbq (pick_c03 pre std) self fx6 e2 s) = Ok out.
+Proof. exact @crender_erase. Qed.
+Print Assumptions C09_composed_render.
+
+(* ... and on the property's domain (formats well-formed UTF-8, the two recorded classes excluded) that is the
+   specification of this file *)
+Theorem C09_composed_spec :
+  forall (F : Type) (fzero : F -> bool) (ffmt gfmt : VL.fkind -> F -> bytes) (fbig : F -> bool)
+         (quote : bytes -> bytes) (cbq : bytes -> bool) (pre : list bytes) (std : option Tk.tracker)
+         (self : bytes) (fx6 : bool) (s : @csnip F) (e : TL.renv) (out : bytes) (e' : TL.renv),
+    crender fzero ffmt gfmt fbig quote cbq (pick_c03 pre std) self fx6 s e = Ok (out, e') ->
+    let t := cerase fzero ffmt gfmt fbig quote cbq (pick_c03 pre std) self fx6 e' s in
+    fmts_utf8 t = true -> cls_bom t = false -> cls_nolit t = false ->
+    spec_render same OutOfFuel t = Ok out.
+Proof. exact @crender_spec. Qed.
+Print Assumptions C09_composed_spec.
+
+(* non-vacuity, with the tracker of the current tree: a bound argument that no placeholder mentions registers nothing,
+   one mentioned twice is rendered twice; clashing packages are named in the order of rendering *)
+Local Open Scope string_scope.
+Definition ex_id (s : string) : @csnip unit := RLeaf _ _ (@LID unit (Some (TL.IdStr (bs s)))).
+Definition ex_crender (s : @csnip unit) :=
+  match crender (fun _ => true) (fun _ _ => []) (fun _ _ => []) (fun _ => false) (fun s => s) (fun _ => true)
+          the_pick (bs "example.com/x") true s [] with
+  | Ok (out, e') => Some (to_string out, map (fun p => (to_string (fst p), to_string (snd p))) e')
+  | _ => None
+  end.
+
+Example C09_example_composed :
+  ex_crender (RT _ _ (bs "@x @x") [(bs "x", ex_id "a.com/b.T"); (bs "y", ex_id "a.com/c.T")])
+  = Some ("b.T b.T", [("a.com/b", "b")])
+  /\ ex_crender (RT _ _ (bs "@y @x @y") [(bs "x", ex_id "a.com/foo-bar.T"); (bs "y", ex_id "b.org/foo_bar.X[a.com/foo-bar.T,example.com/x.Own]")])
+  = Some ("borgfoobar.X[foobar.T,Own] foobar.T borgfoobar.X[foobar.T,Own]", [("a.com/foo-bar", "foobar"); ("b.org/foo_bar", "borgfoobar")]).
+Proof. vm_compute. split; reflexivity. Qed.
